@@ -231,10 +231,11 @@ func runC17(c *Ctx) {
 	c.rule("R7", "a reply without TC is returned whole: the datagram reader's buffer is a constant of at least 4095 bytes and the reply handed on is exactly the bytes read", 1)
 	checkDatagramReadBuffer(c)
 	// ---------------------------------------------------------------- R8
-	c.rule("R8", "the reply channel the TCP exchange waits on is made for that exchange (a channel kept per connection hands a late reply of an abandoned query to the next query)", 2)
+	c.rule("R8", "the reply channel the TCP exchange waits on is made for that exchange, and replies are matched to it by a per-connection wire id (a late or surplus reply of an earlier query never reaches the fallback's caller)", 5)
 	lf := p.newLockFacts()
 	lf.analyseScope(p.funcsIn(relTransport))
 	checkFreshReplyChan(c, lf)
+	checkReuseIdMatch(c, lf)
 }
 
 // checkDatagramReadBuffer: readMsgUdp reads every datagram into the whole pooled buffer of a constant size >= 4095:
@@ -261,8 +262,9 @@ func checkDatagramReadBuffer(c *Ctx) {
 			return
 		}
 		n, isC := constInt(g.Call.Args[0])
-		if !isC || n < 4095 {
-			why = "the receive buffer is " + exprStr(g.Call.Args[0]) + " bytes (a constant >= 4095 is required): a larger reply without TC is cut by the read and handed on chopped, with no TCP retry"
+		if !isC || n < 65535 {
+			// D25: the rest of a datagram that is larger than the buffer is discarded by the kernel without an error
+			why = "the receive buffer is " + exprStr(g.Call.Args[0]) + " bytes (the maximum message size, 65535, is required): a larger reply without TC is cut by the read and handed on chopped as if it was complete, with no TCP retry"
 			return
 		}
 		good = true
@@ -278,5 +280,5 @@ func checkDatagramReadBuffer(c *Ctx) {
 			}
 		}
 	})
-	c.check(good, "rx-buffer", rm.Pos(), "datagrams are read into the whole pooled buffer of >= 4095 bytes", why)
+	c.check(good, "rx-buffer", rm.Pos(), "datagrams are read into the whole pooled buffer of the maximum message size", why)
 }
